@@ -8,6 +8,9 @@ import (
 	"bytes"
 	"context"
 	"crypto"
+	"crypto/ecdsa"
+	"crypto/elliptic"
+	crand "crypto/rand"
 	"crypto/x509"
 	"encoding/json"
 	"encoding/pem"
@@ -112,6 +115,7 @@ type world struct {
 	keys     []keySpec
 	auditLog string
 	k2key    string // (p11 mode) PEM file of the EC key that goes on the second token
+	k3key    string
 	model    *fakep11.Model
 }
 
@@ -140,6 +144,7 @@ func (w *world) startTokenModel() {
 	}
 	m.AddKeyPair(0, "k1", []byte{1}, load("/repo/functest/testkeys/rsa2048.key"))
 	m.AddKeyPair(1, "k2", []byte{2}, load(w.k2key))
+	m.AddKeyPair(1, "k3", []byte{3}, load(w.k3key))
 	m.Arm(fakep11.Knobs{Slots: []fakep11.Slot{{ID: 0, Present: true, Label: "tok1", Serial: "0001"}, {ID: 1, Present: true, Label: "tok2", Serial: "0002"}}, Tries0: 3, RightPin: "123456"})
 	w.model = m
 }
@@ -158,13 +163,18 @@ func workerPids() []int {
 const pkgs = "/repo/functest/packages/"
 
 func writeECKey(dir string) (keyPath, certPath, certPEM string) {
-	c := certs.New(certs.Opt{CN: "verif k2 ecdsa", EKU: []x509.ExtKeyUsage{x509.ExtKeyUsageCodeSigning}}, nil)
+	return writeECKeyOn(dir, "k2", nil)
+}
+
+// writeECKeyOn: an ECDSA key (P-256 unless a key is given) with a self-signed code-signing certificate, as files
+func writeECKeyOn(dir, name string, key crypto.Signer) (keyPath, certPath, certPEM string) {
+	c := certs.New(certs.Opt{CN: "verif " + name + " ecdsa", EKU: []x509.ExtKeyUsage{x509.ExtKeyUsageCodeSigning}, Key: key}, nil)
 	der, err := x509.MarshalPKCS8PrivateKey(c.Key)
 	if err != nil {
 		panic(err)
 	}
-	keyPath = filepath.Join(dir, "k2.key")
-	certPath = filepath.Join(dir, "k2.crt")
+	keyPath = filepath.Join(dir, name+".key")
+	certPath = filepath.Join(dir, name+".crt")
 	os.WriteFile(keyPath, pem.EncodeToMemory(&pem.Block{Type: "PRIVATE KEY", Bytes: der}), 0600)
 	os.WriteFile(certPath, []byte(c.PEM()), 0600)
 	return keyPath, certPath, c.PEM()
@@ -186,6 +196,12 @@ func buildWorld(dir, auditKind, amqp string, cacheSeconds int, rateLimit float64
 	w := &world{dir: dir}
 	w.client = certs.New(certs.Opt{CN: "verif client", EKU: []x509.ExtKeyUsage{x509.ExtKeyUsageClientAuth}}, nil)
 	k2key, k2crt, k2pem := writeECKey(dir)
+	// a P-384 key: the larger curves have their own digest conventions in several signers
+	p384, err := ecdsa.GenerateKey(elliptic.P384(), crand.Reader)
+	if err != nil {
+		panic(err)
+	}
+	k3key, k3crt, k3pem := writeECKeyOn(dir, "k3", p384)
 	rsaPEM, _ := os.ReadFile("/repo/functest/testkeys/rsa2048.crt")
 	var sb strings.Builder
 	if p11Mode {
@@ -195,6 +211,8 @@ func buildWorld(dir, auditKind, amqp string, cacheSeconds int, rateLimit float64
 		sb.WriteString("keys:\n")
 		sb.WriteString("  k1:\n    token: t1\n    label: k1\n    pgpcertificate: /repo/functest/testkeys/rsa2048.pgp\n    x509certificate: /repo/functest/testkeys/rsa2048.crt\n    roles: [r1]\n")
 		fmt.Fprintf(&sb, "  k2:\n    token: t2\n    label: k2\n    x509certificate: %s\n    roles: [r1]\n", k2crt)
+		fmt.Fprintf(&sb, "  k3:\n    token: t2\n    label: k3\n    x509certificate: %s\n    roles: [r1]\n", k3crt)
+		w.k3key = k3key
 		sb.WriteString("  alias1:\n    alias: k1\n")
 		sb.WriteString("  hidden:\n    token: t1\n    label: k1\n    x509certificate: /repo/functest/testkeys/rsa2048.crt\n    roles: [r1]\n    hide: true\n")
 	} else {
@@ -206,6 +224,7 @@ func buildWorld(dir, auditKind, amqp string, cacheSeconds int, rateLimit float64
 	sb.WriteString("keys:\n")
 	sb.WriteString("  k1:\n    token: t1\n    keyfile: /repo/functest/testkeys/rsa2048.key\n    pgpcertificate: /repo/functest/testkeys/rsa2048.pgp\n    x509certificate: /repo/functest/testkeys/rsa2048.crt\n    roles: [r1]\n")
 	fmt.Fprintf(&sb, "  k2:\n    token: t2\n    keyfile: %s\n    x509certificate: %s\n    roles: [r1]\n", k2key, k2crt)
+	fmt.Fprintf(&sb, "  k3:\n    token: t2\n    keyfile: %s\n    x509certificate: %s\n    roles: [r1]\n", k3key, k3crt)
 	sb.WriteString("  alias1:\n    alias: k1\n")
 	sb.WriteString("  hidden:\n    token: t1\n    keyfile: /repo/functest/testkeys/rsa2048.key\n    x509certificate: /repo/functest/testkeys/rsa2048.crt\n    roles: [r1]\n    hide: true\n")
 	}
@@ -242,6 +261,7 @@ func buildWorld(dir, auditKind, amqp string, cacheSeconds int, rateLimit float64
 		{"k1", "k1", string(rsaPEM), true},
 		{"alias1", "k1", string(rsaPEM), true},
 		{"k2", "k2", k2pem, false},
+		{"k3", "k3", k3pem, false},
 	}
 	return w
 }
@@ -897,8 +917,8 @@ func (w *world) otherRequest(r *res.Result, base string, hc *http.Client, lr *ra
 	case p == "/list_keys":
 		var got []string
 		json.Unmarshal(body, &got)
-		if strings.Join(got, ",") != "alias1,k1,k2" {
-			r.Fail(key, p, "/list_keys under load returned %v, expected [alias1 k1 k2]", got)
+		if strings.Join(got, ",") != "alias1,k1,k2,k3" {
+			r.Fail(key, p, "/list_keys under load returned %v, expected [alias1 k1 k2 k3]", got)
 		}
 	case strings.HasPrefix(p, "/keys/"):
 		var ki struct{ X509Certificate string }
